@@ -32,7 +32,7 @@ static unsigned ps_calls, ps_call_bound;
 static int ps_runaway;
 /* fault injection: the ps_fault_at-th access (0-based, reads and writes counted together) fails */
 static long ps_fault_at = -1;
-static int ps_fault_short;       /* 0: transfers nothing, 1: transfers n-1 */
+static int ps_fault_short;       /* 0: transfers nothing, 1: transfers n-1, 2: transfers nothing and returns (size_t)-1 */
 static int ps_fault_fired;
 static int ps_fault_was_write;
 
@@ -79,8 +79,11 @@ ps_access(int write, uint32_t addr, void *rbuf, const void *wbuf, size_t n)
     if (ps_fault_at >= 0 && (long)idx == ps_fault_at) {
         ps_fault_fired = 1;
         ps_fault_was_write = write;
-        todo = (ps_fault_short && n > 0) ? n - 1 : 0;
+        todo = (ps_fault_short == 1 && n > 0) ? n - 1 : 0;
     }
+    /* what the callback reports: the octets moved, or - the way a driver forwards a failing pread()/pwrite() -
+     * (size_t)-1 */
+    const size_t report_minus_one = ps_fault_at >= 0 && (long)idx == ps_fault_at && ps_fault_short == 2;
     uint64_t lo = addr, hi = (uint64_t)addr + n;
     /* a zero-length access touches nothing, wherever its (possibly wrapped) address points */
     int inside = n == 0 || (n <= ps_len && lo >= ps_base && hi <= (uint64_t)ps_base + ps_len);
@@ -99,12 +102,12 @@ ps_access(int write, uint32_t addr, void *rbuf, const void *wbuf, size_t n)
         }
     }
     if (!inside || n == 0)
-        return todo; /* pretend, without touching memory */
+        return report_minus_one ? (size_t)-1 : todo; /* pretend, without touching memory */
     if (write)
         memcpy(ps_medium + (addr - ps_base), wbuf, todo);
     else
         memcpy(rbuf, ps_medium + (addr - ps_base), todo);
-    return todo;
+    return report_minus_one ? (size_t)-1 : todo;
 }
 
 static size_t
